@@ -1,5 +1,6 @@
 import SpecVerif.Proofs.C05
 import SpecVerif.Proofs.C05Ov
+import SpecVerif.Proofs.C05Decl
 /-!
 # C05 — scalar and top-level helpers compute exactly the documented new state
 
@@ -1115,5 +1116,189 @@ example : Ov.run Eo ovo 6 (.inst 0 .nil) { op := .withA 0 MISSING [(41, .sc (.in
 /-- the memo: a `**kwargs` constructor (1) answers with the keywords of each call, a fixed one (0) is remembered -/
 example : Ov.runArgs (fun f => if f = 0 then .fixed [0, 1] else .varkw [0]) []
     [(1, [0, 40]), (0, [7]), (1, [41, 42]), (0, [0]), (1, [])] = [[0, 40], [0, 1], [41, 42], [0, 1], []] := by decide
+
+/-! ## where the preparer of an attribute comes from (`Model/C05Decl.lean`)
+
+`Decl.bootstrap` walks a class hierarchy root first as `spec_class.bootstrap` / `build_attr_spec` do, for one
+attribute and one of its callbacks (preparer or item preparer), and yields the entry of the class table the theorems
+above take as data (`AttrSpec.prep` / `AttrSpec.itemPrep`, `Res.entry`) and the callback the generated
+`with_/update_/transform_<a>` helpers close over (`Res.helper`).  The theorems quantify over every hierarchy. -/
+
+section declarations
+open SpecVerif.C05.Decl SpecVerif.C05.Decl.Proofs
+
+/-- **bootstrap_prep_closed_form.** For every hierarchy (any depth, any mix of spec and plain classes, any bodies):
+`getattr(cls, "_prepare_<a>")` is the nearest method; the class-table entry is decided by the nearest spec class
+that mentions the attribute — the nearest method at or above it, else (a mere re-default) the entry of its parent,
+else the decorator registration on its own `Attr` object —; the closure of the helpers by the nearest spec class that
+owns it. -/
+theorem bootstrap_prep_closed_form (ls : List Layer) :
+    (bootstrap ls).meth = nearestMethod ls.reverse
+    ∧ (bootstrap ls).entry = entrySpec ls.reverse
+    ∧ (bootstrap ls).helper = helperSpec ls.reverse := by
+  have := bootstrap_closed ls.reverse
+  rwa [List.reverse_reverse] at this
+
+/-- **decorator_preparer_registered.** A callback registered with `@<a>.preparer` / `@<a>.item_preparer` on the
+`Attr(...)` object of a spec class body is THE callback of the attribute — for that class and for every class below
+that leaves the attribute alone (spec classes not mentioning it, plain subclasses with or without a new default) —
+whenever no conventionally named method is defined at or above the declaring class: in the class table and for
+the generated helpers alike. -/
+theorem decorator_preparer_registered (above below : List Layer) (L : Layer) (p : Nat)
+    (hs : L.spec = true) (hb : L.body = .attr (some p))
+    (hm : ∀ M ∈ above ++ [L], M.method = none)
+    (hbelow : ∀ M ∈ below, M.untouched = true) :
+    (bootstrap (above ++ L :: below)).entry = some p ∧ (bootstrap (above ++ L :: below)).helper = some p := by
+  obtain ⟨_, h2, h3⟩ := bootstrap_prep_closed_form (above ++ L :: below)
+  have hrev : (above ++ L :: below).reverse = below.reverse ++ (L :: above.reverse) := by simp
+  have hb' : ∀ M ∈ below.reverse, M.untouched = true := fun M hM => hbelow M (by simpa using hM)
+  have hnm : nearestMethod (L :: above.reverse) = none :=
+    nearestMethod_none _ (fun M hM => hm M (by
+      simp only [List.mem_cons, List.mem_reverse] at hM
+      simp only [List.mem_append, List.mem_singleton]
+      rcases hM with h | h
+      · exact Or.inr h
+      · exact Or.inl h))
+  rw [h2, h3, hrev, entrySpec_untouched_prefix _ _ hb', helperSpec_untouched_prefix _ _ hb']
+  have hu : L.untouched = false := by simp [Layer.untouched, hs, hb]
+  constructor
+  · simp only [entrySpec, hu, hnm, hb, Body.deco, orElse]
+    simp
+  · simp only [helperSpec, hs, hb, Body.owns, hnm, Body.deco, orElse]
+    simp
+
+/-- **method_beats_decorator.** When a spec class mentions the attribute and a `_prepare_<a>` method is visible from
+it, the nearest such method is the entry — whatever decorator its `Attr` object carries — for that class and every
+class below that leaves the attribute alone. -/
+theorem method_beats_decorator (above below : List Layer) (L : Layer) (q : Nat)
+    (hu : L.untouched = false) (hq : nearestMethod (L :: above.reverse) = some q)
+    (hbelow : ∀ M ∈ below, M.untouched = true) :
+    (bootstrap (above ++ L :: below)).entry = some q := by
+  obtain ⟨_, h2, _⟩ := bootstrap_prep_closed_form (above ++ L :: below)
+  have hrev : (above ++ L :: below).reverse = below.reverse ++ (L :: above.reverse) := by simp
+  have hb' : ∀ M ∈ below.reverse, M.untouched = true := fun M hM => hbelow M (by simpa using hM)
+  rw [h2, hrev, entrySpec_untouched_prefix _ _ hb']
+  simp only [entrySpec, hu, hq, orElse]
+  simp
+
+/-- **untouched_subclass_inherits.** A plain subclass, or a spec subclass that does not mention the attribute,
+changes neither the entry nor the helpers' callback — also when it defines a method of the conventional name (the code
+never looks at it). -/
+theorem untouched_subclass_inherits (ls : List Layer) (L : Layer) (hu : L.untouched = true) :
+    (bootstrap (ls ++ [L])).entry = (bootstrap ls).entry ∧ (bootstrap (ls ++ [L])).helper = (bootstrap ls).helper := by
+  rw [bootstrap_snoc]
+  obtain ⟨sp, body, method⟩ := L
+  cases sp with
+  | false => simp [step]
+  | true => cases body <;> simp_all [Layer.untouched, step]
+
+/-- the full statement: the generated helpers prepare with the callback `obj.a = v` prepares with -/
+def HelperPreparesAsSetattrFull : Prop :=
+  ∀ ls : List Layer, (bootstrap ls).helperPrep = (bootstrap ls).entry
+
+/-- **helper_prepares_as_setattr.** Since /repo a169c24 (`with_attr` looks the `Attr` up on `type(self)`) the full
+statement holds, for every hierarchy: `with_/update_/transform_<a>` prepare with the very entry `obj.a = v`, the
+constructor, `reset_<a>` / `del` and `update()` prepare with — re-defaulting spec subclasses, overridden methods
+and decorator registrations included. -/
+theorem helper_prepares_as_setattr : HelperPreparesAsSetattrFull := fun _ => rfl
+
+/-- legacy (the code before /repo a169c24 prepared with the callback of the helpers' CLOSURE, `Res.helper`) -/
+def LegacyHelperClosureFull : Prop :=
+  ∀ ls : List Layer, (bootstrap ls).helper = (bootstrap ls).entry
+
+/-- **helper_prepares_as_setattr_partial** (legacy). The closure agrees with the entry in every hierarchy in which each
+spec class that merely re-defaults the attribute (`a = 3`) finds, by `getattr`, the callback its inherited helpers
+closed over (`coherent`). -/
+theorem helper_prepares_as_setattr_partial (ls : List Layer) (hc : coherent ls = true) :
+    (bootstrap ls).helper = (bootstrap ls).entry :=
+  coherentFrom_helper_eq_entry ls {} rfl hc
+
+/-- **helper_owner_spec_witness** (legacy counter-model). Before /repo a169c24 the statement was false of the code
+(repaired finding KF-C05-helper-owner-spec): `_prepare_a` overridden by a spec subclass that also re-defaults `a` —
+`obj.a = v` used the override, `with_a` the parent's method. -/
+theorem helper_owner_spec_witness : ¬ LegacyHelperClosureFull := by
+  intro h
+  have := h [⟨true, .annotated, some 0⟩, ⟨true, .value, some 1⟩]
+  revert this
+  decide
+
+example : bootstrap [⟨true, .annotated, some 0⟩, ⟨true, .value, some 1⟩] = { meth := some 1, entry := some 1, helper := some 0 } := by
+  decide
+/-- … where the helpers now prepare with the override, as `obj.a = v` does -/
+example : (bootstrap [⟨true, .annotated, some 0⟩, ⟨true, .value, some 1⟩]).helperPrep = some 1 := by decide
+
+/-- the full statement (the code's own comment: "Only the default … was overridden, so the rest of the inherited
+configuration still applies"): the entry of a spec subclass that merely re-defaults the attribute is the `_prepare_`
+method found by name from it, and otherwise the callback of its parent — however that was declared -/
+def RedefaultKeepsCallbackFull (boot : List Layer → Res) : Prop :=
+  ∀ (ls : List Layer) (L : Layer), L.spec = true → L.body = .value →
+    (boot (ls ++ [L])).entry = orElse (orElse L.method (boot ls).meth) (boot ls).entry
+
+/-- **redefault_keeps_callback.** Since /repo 62b86d6 the full statement holds, for every hierarchy. -/
+theorem redefault_keeps_callback : RedefaultKeepsCallbackFull bootstrap := by
+  intro ls L hs hb
+  rw [bootstrap_snoc]
+  obtain ⟨sp, body, method⟩ := L
+  simp only at hs hb
+  subst hs hb
+  simp [step]
+
+/-- **redefault_keeps_callback_no_method.** In particular: with no `_prepare_` method in sight, a merely re-defaulting
+spec subclass has exactly the entry of its parent — a decorator registration included. -/
+theorem redefault_keeps_callback_no_method (ls : List Layer) (L : Layer) (hs : L.spec = true) (hb : L.body = .value)
+    (hm : L.method = none) (hn : (bootstrap ls).meth = none) :
+    (bootstrap (ls ++ [L])).entry = (bootstrap ls).entry := by
+  rw [redefault_keeps_callback ls L hs hb, hm, hn]
+  rfl
+
+/-- **redefault_drops_decorator_witness** (legacy counter-model). Before /repo 62b86d6 the statement was false of the
+code (repaired finding KF-C05-redefault-drops-decorator-preparer): `a0: int = Attr(default=1)` with `@a0.preparer`,
+re-defaulted (`a0 = 3`) by a spec subclass — the `Attr` rebuilt from the plain value had no preparer. -/
+theorem redefault_drops_decorator_witness : ¬ RedefaultKeepsCallbackFull bootstrapLegacy := by
+  intro h
+  have := h [⟨true, .attr (some 0), none⟩] ⟨true, .value, none⟩ rfl rfl
+  revert this
+  decide
+
+/-- non-vacuity: decorator registration, re-defaulting spec subclass, plain subclass, another re-default -/
+example : bootstrap [⟨true, .attr (some 0), none⟩, ⟨true, .value, none⟩, ⟨false, .value, none⟩, ⟨true, .value, none⟩]
+    = { meth := none, entry := some 0, helper := some 0 } := by decide
+example : (bootstrapLegacy [⟨true, .attr (some 0), none⟩, ⟨true, .value, none⟩]).entry = none := by decide
+
+/-- **decorator_preparer_applied.** End to end: for a scalar attribute whose class-table entry is what `bootstrap`
+computes from a hierarchy as in `decorator_preparer_registered`, `obj.a = v` stores exactly `p(obj, v)` — the
+decorator-registered preparer applied to the value — (and puts the dependants of `a` back at their defaults), or
+raises TypeError when that does not conform. -/
+theorem decorator_preparer_applied (m c : Nat) (fs : Flds) (a : Nat) (v : Val) (sp : AttrSpec)
+    (above below : List Layer) (L : Layer) (p : Nat)
+    (ha : E.attr? c a = some sp)
+    (hsp : sp.prep = (bootstrap (above ++ L :: below)).entry)
+    (hs : L.spec = true) (hb : L.body = .attr (some p))
+    (hm : ∀ M ∈ above ++ [L], M.method = none)
+    (hbelow : ∀ M ∈ below, M.untouched = true)
+    (hok : Spec.AssignOk E sp (.inst c fs) v)
+    (hnd : Spec.isDict (E.prep p (.inst c fs) v) = false) (hnc : sp.ty.isCollection = false)
+    (hns : (E.prep p (.inst c fs) v).isSent = false) :
+    setAttrV E (m+3) false (.inst c fs) a v =
+      if conforms E sp.ty (E.prep p (.inst c fs) v) then
+        .ok (E.invalidate (.inst c (fs.set sp.name (E.prep p (.inst c fs) v))) sp.name)
+      else .error .typeError := by
+  have hp : sp.prep = some p := by
+    rw [hsp]; exact (decorator_preparer_registered above below L p hs hb hm hbelow).1
+  have hprep : Spec.prep E sp (.inst c fs) v = E.prep p (.inst c fs) v := by simp [Spec.prep, hp]
+  have := assign_scalar_explicit E m c fs a v sp ha hok (by rw [hprep]; exact hnd) hnc (by rw [hprep]; exact hns)
+  rw [hprep] at this
+  exact this
+
+/-- non-vacuity: `a: int = Attr(default=1)` with `@a.preparer` (preparer 0) in a spec class, a spec subclass not
+mentioning `a`, a plain subclass re-defaulting it: the entry and the helpers' callback are preparer 0 -/
+example : bootstrap [⟨true, .attr (some 0), none⟩, ⟨true, .absent, some 3⟩, ⟨false, .value, none⟩]
+    = { meth := some 3, entry := some 0, helper := some 0 } := by decide
+/-- … and a coherent hierarchy with a re-defaulting spec subclass (the method is inherited) -/
+example : coherent [⟨true, .annotated, some 2⟩, ⟨true, .value, none⟩, ⟨true, .attr (some 5), none⟩] = true := by decide
+example : bootstrap [⟨true, .annotated, some 2⟩, ⟨true, .value, none⟩, ⟨true, .attr (some 5), none⟩]
+    = { meth := some 2, entry := some 2, helper := some 2 } := by decide
+
+end declarations
 
 end SpecVerif.Props.C05
